@@ -229,15 +229,27 @@ type c15ConcResult struct {
 	fp          string
 }
 
-func c15Pause(rng *rand.Rand) {
-	switch rng.IntN(6) {
-	case 0, 1:
-	case 2, 3:
+// c15Spin yields n times.  (time.Sleep is avoided for short pauses: on this kind of machine its
+// granularity is about a millisecond, which would make a round take 100 ms.)
+func c15Spin(n int) {
+	for i := 0; i < n; i++ {
 		runtime.Gosched()
-	case 4:
-		time.Sleep(time.Duration(1+rng.IntN(20)) * time.Microsecond)
+	}
+}
+
+func c15Pause(rng *rand.Rand) {
+	switch rng.IntN(8) {
+	case 0, 1:
+	case 2, 3, 4:
+		c15Spin(1 + rng.IntN(4))
+	case 5, 6:
+		c15Spin(5 + rng.IntN(40))
 	default:
-		time.Sleep(time.Duration(20+rng.IntN(150)) * time.Microsecond)
+		if rng.IntN(8) == 0 {
+			time.Sleep(time.Microsecond) // a long descheduling, rarely
+		} else {
+			c15Spin(50 + rng.IntN(150))
+		}
 	}
 }
 
@@ -294,9 +306,13 @@ func runC15Conc(seed uint64, hostile bool, st c15Stats) (res c15ConcResult) {
 	}
 
 	// the streams the run loop completes itself, right after they were opened (before they are accepted)
+	// A type is "static" in a round if its incoming streams are never completed: then no credit is
+	// issued, and the peer may be hostile for that type in every job.
 	early := [2]map[int]bool{{}, {}}
+	var static [2]bool
 	for t := 0; t < 2; t++ {
-		for n := 1; n <= 8; n++ {
+		static[t] = !hostile && rng.IntN(3) == 0
+		for n := 1; n <= 8 && !static[t]; n++ {
 			if rng.IntN(3) == 0 {
 				early[t][n] = true
 			}
@@ -350,11 +366,11 @@ func runC15Conc(seed uint64, hostile bool, st c15Stats) (res c15ConcResult) {
 				c.m.HandleMaxStreamsFrame(&wire.MaxStreamsFrame{Type: protocol.StreamType(e.t), MaxStreamNum: protocol.StreamNum(e.n)})
 				c.record(id, c15CIn{Part: e.t, Kind: c15KMax, N: e.n}, call, c15COut{OK: true})
 			case c15KFrame:
-				if !hostile {
+				if !hostile && !static[e.t] {
 					ok := false
-					for try := 0; try < 12 && !ok; try++ {
+					for try := 0; try < 40 && !ok; try++ {
 						if ok = e.n <= c.advertised(e.t); !ok {
-							time.Sleep(25 * time.Microsecond)
+							c15Spin(10)
 						}
 					}
 					if !ok {
@@ -394,8 +410,15 @@ func runC15Conc(seed uint64, hostile bool, st c15Stats) (res c15ConcResult) {
 				ctx := ctxAll
 				if mode == 3 {
 					var cancel context.CancelFunc
-					ctx, cancel = context.WithTimeout(ctxAll, time.Duration(10+rng.IntN(300))*time.Microsecond)
+					ctx, cancel = context.WithCancel(ctxAll)
 					defer cancel()
+					n := 5 + rng.IntN(300)
+					wg.Add(1)
+					go func() {
+						defer wg.Done()
+						c15Spin(n)
+						cancel()
+					}()
 				}
 				kind := c15KSync
 				if mode == 0 {
@@ -468,7 +491,7 @@ func runC15Conc(seed uint64, hostile bool, st c15Stats) (res c15ConcResult) {
 						return
 					}
 					c15Pause(rng)
-					if !early[t][out.N] {
+					if !early[t][out.N] && !static[t] {
 						c.del(id, t, false, out.N)
 					}
 					if rng.IntN(2) == 0 {
@@ -482,8 +505,8 @@ func runC15Conc(seed uint64, hostile bool, st c15Stats) (res c15ConcResult) {
 	// ---- let it run: until the run loop is through and the application goroutines have had
 	// time to react, then cancel everything that is still blocked
 	<-loopDone
-	for i := 0; i < 40 && int(finished.Load()) < client; i++ {
-		time.Sleep(50 * time.Microsecond)
+	for i := 0; i < 3000 && int(finished.Load()) < client; i++ {
+		runtime.Gosched()
 	}
 	cancelAll()
 	wg.Wait()
@@ -640,14 +663,16 @@ func c15ConcTest(t *testing.T, hostile bool) {
 	var hookCtr atomic.Uint64
 	delay := func(string) {
 		x := hookCtr.Add(1) * 0x9E3779B97F4A7C15
-		switch (x >> 40) % 5 {
-		case 0:
-		case 1, 2:
-			runtime.Gosched()
-		case 3:
-			time.Sleep(time.Duration(1+(x>>20)%30) * time.Microsecond)
+		switch (x >> 40) % 16 {
+		case 0, 1, 2:
+		case 3, 4, 5, 6, 7:
+			c15Spin(1 + int((x>>20)%4))
+		case 8, 9, 10, 11, 12:
+			c15Spin(5 + int((x>>20)%60))
+		case 13, 14:
+			c15Spin(60 + int((x>>20)%200))
 		default:
-			time.Sleep(time.Duration(30+(x>>20)%200) * time.Microsecond)
+			time.Sleep(time.Microsecond)
 		}
 	}
 	verifhook.SetAction("streams.accept.beforeWait", delay)
@@ -656,7 +681,7 @@ func c15ConcTest(t *testing.T, hostile bool) {
 
 	rounds, batch, name := l.Pick(1500, 60000), 50, "conc"
 	if hostile {
-		rounds, batch, name = l.Pick(200, 2000), 10, "conc-hostile"
+		rounds, batch, name = l.Pick(100, 1000), 10, "conc-hostile"
 	}
 	for bi := 0; bi*batch < rounds; bi++ {
 		if !l.Mine(bi) {
